@@ -26,6 +26,7 @@
 
 #include "utils.hpp"
 #include "environment.hpp"
+#include "verif_hooks.hpp"
 
 namespace pops {
 
@@ -92,6 +93,15 @@ public:
         else {
             dispersers = static_cast<int>(std::floor(lambda * count));
         }
+#ifdef POPS_CORE_VERIF
+        POPS_VERIF_EVENT(
+            "soil_from",
+            generator,
+            static_cast<double>(row),
+            static_cast<double>(col),
+            lambda,
+            static_cast<double>(dispersers));
+#endif
         auto draw = draw_n_from_cohorts(*rasters_, dispersers, row, col, generator);
         size_t index = 0;
         for (auto count : draw) {
@@ -115,6 +125,14 @@ public:
             tester = distribution_uniform_(generator);
         else
             tester = 1 - fixed_establishment_probability_;
+#ifdef POPS_CORE_VERIF
+        POPS_VERIF_EVENT(
+            "soil_to",
+            generator,
+            tester,
+            current_probability,
+            tester < current_probability ? 1.0 : 0.0);
+#endif
         if (tester < current_probability) {
             this->add_at(row, col);
         }
